@@ -127,12 +127,12 @@ func TestVerif_C12_TestPrivateKey(t *testing.T) {
 		case "low":
 			b = gen.Pad32(big.NewInt(int64(gen.Int(t, "v", 0, 3))))
 		case "high":
-			b = gen.Pad32(new(big.Int).Add(sm2gen.N, big.NewInt(int64(gen.Int(t, "off", -4, 2)))))
+			b = gen.Pad32(new(big.Int).Add(sm2gen.N, big.NewInt(int64(gen.Uniform(t, "off", -4, 2)))))
 		case "uniform":
 			b = gen.RandBytes(r, 32)
 		case "prefix":
 			b = gen.RandBytes(r, 32)
-			k := gen.Int(t, "k", 1, 32)
+			k := gen.Uniform(t, "k", 1, 32)
 			copy(b[:k], gen.Pad32(sm2gen.NM1)[:k])
 		case "shape":
 			b, _ = gen.Bytes32(t, "b")
@@ -180,7 +180,7 @@ func TestVerif_C12_DerivePublic(t *testing.T) {
 		case "n-1":
 			b = gen.Pad32(sm2gen.NM1)
 		case "above-n":
-			b = gen.Pad32(new(big.Int).Add(sm2gen.N, big.NewInt(int64(gen.Int(t, "off", 1, 5)))))
+			b = gen.Pad32(new(big.Int).Add(sm2gen.N, big.NewInt(int64(gen.Uniform(t, "off", 1, 5)))))
 		case "max":
 			b = bytes.Repeat([]byte{0xff}, 32)
 		case "length":
@@ -241,11 +241,11 @@ func TestVerif_C12_CheckOnCurve(t *testing.T) {
 			tgt := append([]byte(nil), px...)
 			if gen.Bool(t, "y") {
 				tgt = append([]byte(nil), py...)
-				bit := gen.Int(t, "bit", 0, 255)
+				bit := gen.Uniform(t, "bit", 0, 255)
 				tgt[bit>>3] ^= 0x80 >> uint(bit&7)
 				y = tgt
 			} else {
-				bit := gen.Int(t, "bit", 0, 255)
+				bit := gen.Uniform(t, "bit", 0, 255)
 				tgt[bit>>3] ^= 0x80 >> uint(bit&7)
 				x = tgt
 			}
